@@ -1,6 +1,7 @@
 import Batteries.Tactic.Alias
 import GenlmModel.Proofs.Wfsa
 import GenlmModel.Proofs.Wfsa2
+import GenlmModel.Proofs.LimWfsa
 /-! # C11 — automaton string weight = sum over accepting paths -/
 namespace Genlm.Props.C11
 /-- the driver's dynamic programme is the path-sum specification (ε arcs and cycles allowed) -/
@@ -16,4 +17,16 @@ alias epsremove_correct := Genlm.epsremove_correct_PN
 alias call_is_path_sum := Genlm.forward_epsremove
 /-- total weight as the start-weighted backward solution -/
 alias total_weight_eq := Genlm.totalWeight_eq
+
+/-! ## at the limit (ℝ≥0∞): `PL A x` = sum over ALL accepting paths spelling x, through ε arcs and ε CYCLES -/
+alias path_sum_is_series := Genlm.PL_eq_tsum
+/-- ε-removal with the true closure of the ε-graph: no ε arc, same weights — no acyclicity hypothesis -/
+alias epsremove_correct_cyclic := Genlm.epsremove_correct_PL
+alias epsremove_preserves_cyclic := Genlm.epsremove_PL
+/-- `WFSA.__call__` (ε-removal, then the forward loop) is the sum over all accepting paths -/
+alias call_is_path_sum_cyclic := Genlm.forward_epsremove_PL
+alias epsremove_hypotheses_satisfiable := Genlm.epsremove_epsStarL
+/-- total weight = sum over all strings of the path sums = start-weighted least backward solution -/
+alias total_weight_is_sum_over_strings := Genlm.tsum_PL_eq_totalWeight
+alias backward_is_least_solution := Genlm.bwdL_least
 end Genlm.Props.C11
